@@ -140,6 +140,12 @@ func (r *RNG) ThresholdCoef() *big.Int {
 
 func (r *RNG) coef1() (*big.Int, string) {
 	if r.Chance(1, 12) {
+		switch r.Intn(4) {
+		case 0:
+			return r.ThresholdFull(), "threshold-full-width"
+		case 1:
+			return r.ThresholdExact(), "threshold-exact"
+		}
 		return r.ThresholdCoef(), "threshold/10^j"
 	}
 	switch r.Intn(16) {
